@@ -240,3 +240,59 @@ Proof.
   split; [repeat constructor|].
   split; [vm_compute; intuition discriminate | vm_compute; reflexivity].
 Qed.
+
+(* ================= patterns with character classes ([seq], [!seq], ranges) =================
+   The pattern enters del_ecu / add_signal_receiver / del_signal_receiver only as a predicate on names.  The deletion
+   theorem holds for EVERY predicate (so for every fnmatch pattern, however it is spelled); glob_match_cls is the
+   predicate fnmatch.fnmatchcase computes when classes are present, it coincides with glob_match when they are not. *)
+Theorem C11_glob_cls_iff : forall p s, glob_match_cls p s = true <-> gtok_rel (gtokenize p) s.
+Proof. exact glob_cls_iff. Qed.
+Print Assumptions C11_glob_cls_iff.
+
+Theorem C11_glob_cls_agrees : forall p s, no_bracket p = true -> glob_match_cls p s = glob_match p s.
+Proof. exact glob_cls_agrees. Qed.
+Print Assumptions C11_glob_cls_agrees.
+
+Theorem C11_cls_mem_no_dash : forall body d, ~ In DASH body -> (cls_mem body d = true <-> In d body).
+Proof. exact cls_mem_no_dash. Qed.
+Print Assumptions C11_cls_mem_no_dash.
+
+(* del_ecu selecting by any predicate p on names: exactly the listed ECUs p accepts leave the list, exactly the
+   references naming a listed accepted ECU disappear, the rest keep their order, nothing else changes *)
+Theorem C11_del_by_hits_exactly_matches :
+  forall (p : name -> bool) m,
+    wf m ->
+    let m' := del_ecu_by p m in
+    ecus m' = filter (fun e => negb (p (ename e))) (ecus m) /\
+    frames m' = map (map_refs (filter (fun x => negb (hit_by p m x)))) (frames m) /\
+    free m' = free m /\
+    refs3 m' = filter (fun x => negb (hit_by p m x)) (refs3 m) /\
+    wf m'.
+Proof. exact del_by_hits_exactly_matches. Qed.
+Print Assumptions C11_del_by_hits_exactly_matches.
+
+Theorem C11_step_cls_agrees : forall m o, op_no_bracket o = true -> step_cls m o = step m o.
+Proof. exact step_cls_agrees. Qed.
+Print Assumptions C11_step_cls_agrees.
+
+Theorem C11_ops_cls_preserve_receivers_uptodate :
+  forall ops1 ops2 m,
+    wf m ->
+    let m' := run_ops_cls m ops1 in
+    wf m' /\ receivers_uptodate (run_ops_cls m (ops1 ++ ops2)) /\
+    forall f, In f (frames m') ->
+      receivers f = nub (flat_map sreceivers (signals f)) /\
+      NoDup (receivers f) /\
+      (forall x, In x (receivers f) <-> exists s, In s (signals f) /\ In x (sreceivers s)).
+Proof. exact ops_cls_preserve_receivers_uptodate. Qed.
+Print Assumptions C11_ops_cls_preserve_receivers_uptodate.
+
+(* "A[B]" = [65;91;66;93] deletes exactly AB from m_ex; "A[!B]" nothing (no listed two-letter name A? other than AB);
+   "[A-B]" the one-letter ECUs A and B; an unclosed "[" is a literal character *)
+Example C11_class_example :
+  map ename (ecus (step_cls m_ex (DelGlob [65; 91; 66; 93]))) = [nA; nB; [67]] /\
+  refs3 (step_cls m_ex (DelGlob [65; 91; 66; 93])) = [nA; nB; nB; nB; nB; nA; nX; nA; nX] /\
+  step_cls m_ex (DelGlob [65; 91; 33; 66; 93]) = m_ex /\
+  map ename (ecus (step_cls m_ex (DelGlob [91; 65; 45; 66; 93]))) = [nAB; [67]] /\
+  glob_match_cls [65; 91] [65; 91] = true /\ glob_match_cls [65; 91; 66] [65; 66] = false.
+Proof. vm_compute. repeat split. Qed.
